@@ -77,6 +77,24 @@ pub async fn apoint(site: &'static str, detail: u128) {
     }
 }
 
+/// Takes `m` like `Mutex::lock`, except that while a simulation is active a caller that
+/// would block parks at the async sync point `site` and tries again once released.
+pub async fn lock_parking<'a, T>(
+    m: &'a std::sync::Mutex<T>,
+    site: &'static str,
+) -> std::sync::MutexGuard<'a, T> {
+    loop {
+        if let Ok(guard) = m.try_lock() {
+            return guard;
+        }
+        if controller().is_none() {
+            return m.lock().unwrap();
+        }
+        apoint(site, 0).await;
+        std::thread::yield_now();
+    }
+}
+
 pub fn expect_thread(kind: &'static str) -> u64 {
     match controller() {
         Some(c) => c.expect_thread(kind),
